@@ -42,6 +42,7 @@ fn dispatch(w: &[&str]) -> String {
         "display" => dispop::run(&w[1..]),
         "intconv" => intconv::run(&w[1..]),
         "seq" => decop::run_seq(&w[1..]),
+        "size" => decop::run_size(&w[1..]),
         "tdecm" => c02op::run_tdecm(&w[1..]),
         "dropcount" => c02op::run_dropcount(&w[1..]),
         "tenc" => typed::run_enc(&w[1..]),
